@@ -28,6 +28,8 @@ import (
 // comparison at a coarser granularity than the instant itself confuses them), around 2024-03-01T12:00Z.
 const c09Base = int64(1709294400) * 1000000000
 
+var c09Locs = []*time.Location{time.UTC, time.FixedZone("p2", 7200), time.FixedZone("m530", -19800)}
+
 func c09Time(k int64) time.Time { return time.Unix(0, c09Base+k*250000) }
 
 func init() {
@@ -74,19 +76,33 @@ func c09Tag(p *int) string {
 }
 
 // c09Consume pulls the stream to its end, keeping the rows delivered before an error.
+// The rows are kept as delivered and turned into text only after the stream has ended: a row (or a pointer / slice in it)
+// that the join goes on writing to after handing it out shows its later contents.
 func c09Consume[T any](ctx context.Context, s stream.Stream[T], f func(T) string) string {
-	var rows []string
-	err := s.Consume(ctx, func(v T) { rows = append(rows, f(v)) })
+	var kept []T
+	err := s.Consume(ctx, func(v T) { kept = append(kept, v) })
+	rows := make([]string, len(kept))
+	for i, v := range kept {
+		rows[i] = f(v)
+	}
 	if err != nil {
 		return "err " + c09ErrClass(err) + " " + c09Rows(rows)
 	}
 	return "ok " + c09Rows(rows)
 }
 
+// c09Timeouts counts the cases that ran into their watchdog: the inputs are tiny and a join that does not end on one of
+// them will not end on the next thousand either (each would cost its full watchdog time).
+var c09Timeouts int
+
 func execC09(caseText string) (obs string) {
+	if c09Timeouts >= 5 {
+		return "not-run-after-5-timeouts"
+	}
 	done := make(chan string, 1)
-	ctx, cancel := context.WithTimeout(context.Background(), 20*time.Second)
+	ctx, cancel := context.WithTimeout(context.Background(), 3*time.Second)
 	defer cancel()
+	start := time.Now()
 	go func() {
 		defer func() {
 			if r := recover(); r != nil {
@@ -97,8 +113,13 @@ func execC09(caseText string) (obs string) {
 	}()
 	select {
 	case o := <-done:
+		if time.Since(start) >= 3*time.Second {
+			c09Timeouts++
+			return "timeout " + o
+		}
 		return o
-	case <-time.After(30 * time.Second):
+	case <-time.After(10 * time.Second):
+		c09Timeouts++
 		return "hang"
 	}
 }
@@ -144,32 +165,38 @@ func execC09Inner(ctx context.Context, caseText string) string {
 			return c09Slot(&t.A) + "+" + c09Slot(t.B)
 		})
 	case variant == "jni":
-		s := stream.JoinMultipleSortedStreams(streams, cmpKt, func(values []kt) string {
-			sl := make([]string, len(values))
-			for i := range values {
-				sl[i] = c09Slot(&values[i])
+		s := stream.JoinMultipleSortedStreams(streams, cmpKt, func(values []kt) func() string {
+			return func() string { // the joiner keeps the slice it was given
+				sl := make([]string, len(values))
+				for i := range values {
+					sl[i] = c09Slot(&values[i])
+				}
+				return strings.Join(sl, "+")
 			}
-			return strings.Join(sl, "+")
 		})
-		return c09Consume(ctx, s, func(r string) string { return r })
+		return c09Consume(ctx, s, func(r func() string) string { return r() })
 	case variant == "jnl":
-		s := stream.LeftJoinMultipleSortedStreams(streams, cmpKt, func(left kt, others []*kt) string {
-			sl := []string{c09Slot(&left)}
-			for _, o := range others {
-				sl = append(sl, c09Slot(o))
+		s := stream.LeftJoinMultipleSortedStreams(streams, cmpKt, func(left kt, others []*kt) func() string {
+			return func() string { // the joiner keeps the slice and the pointers it was given
+				sl := []string{c09Slot(&left)}
+				for _, o := range others {
+					sl = append(sl, c09Slot(o))
+				}
+				return strings.Join(sl, "+")
 			}
-			return strings.Join(sl, "+")
 		})
-		return c09Consume(ctx, s, func(r string) string { return r })
+		return c09Consume(ctx, s, func(r func() string) string { return r() })
 	case variant == "jnf":
-		s := stream.FullJoinMultipleSortedStreams(streams, cmpKt, func(values []*kt) string {
-			sl := make([]string, len(values))
-			for i, o := range values {
-				sl[i] = c09Slot(o)
+		s := stream.FullJoinMultipleSortedStreams(streams, cmpKt, func(values []*kt) func() string {
+			return func() string {
+				sl := make([]string, len(values))
+				for i, o := range values {
+					sl[i] = c09Slot(o)
+				}
+				return strings.Join(sl, "+")
 			}
-			return strings.Join(sl, "+")
 		})
-		return c09Consume(ctx, s, func(r string) string { return r })
+		return c09Consume(ctx, s, func(r func() string) string { return r() })
 	case variant == "tsi" || variant == "tsl" || variant == "tsf":
 		tss := make([]stream.Stream[timeseries.TsRecord[int]], len(ins))
 		for i, l := range ins {
@@ -179,35 +206,51 @@ func execC09Inner(ctx context.Context, caseText string) string {
 			}
 			tss[i] = stream.Just(recs...)
 		}
-		var s stream.Stream[timeseries.TsRecord[string]]
+		// input i carries its instants in location i mod 3 (UTC, +02:00, -05:30): equal instants must meet whatever the
+		// representation; the joiners keep what they were given and are read after the stream has ended
+		locs := c09Locs
+		for i, l := range ins {
+			recs := make([]timeseries.TsRecord[int], len(l))
+			for j, e := range l {
+				recs[j] = timeseries.TsRecord[int]{Timestamp: c09Time(e.K).In(locs[i%3]), Value: e.T}
+			}
+			tss[i] = stream.Just(recs...)
+		}
+		var s stream.Stream[timeseries.TsRecord[func() string]]
 		switch variant {
 		case "tsi":
-			s = timeseries.InnerJoinStreams(tss, func(values []int) string {
-				sl := make([]string, len(values))
-				for i, v := range values {
-					sl[i] = strconv.Itoa(v)
+			s = timeseries.InnerJoinStreams(tss, func(values []int) func() string {
+				return func() string {
+					sl := make([]string, len(values))
+					for i, v := range values {
+						sl[i] = strconv.Itoa(v)
+					}
+					return strings.Join(sl, "+")
 				}
-				return strings.Join(sl, "+")
 			})
 		case "tsl":
-			s = timeseries.LeftJoinStreams(tss, func(left int, others []*int) string {
-				sl := []string{strconv.Itoa(left)}
-				for _, o := range others {
-					sl = append(sl, c09Tag(o))
+			s = timeseries.LeftJoinStreams(tss, func(left int, others []*int) func() string {
+				return func() string {
+					sl := []string{strconv.Itoa(left)}
+					for _, o := range others {
+						sl = append(sl, c09Tag(o))
+					}
+					return strings.Join(sl, "+")
 				}
-				return strings.Join(sl, "+")
 			})
 		default:
-			s = timeseries.FullJoinStreams(tss, func(values []*int) string {
-				sl := make([]string, len(values))
-				for i, o := range values {
-					sl[i] = c09Tag(o)
+			s = timeseries.FullJoinStreams(tss, func(values []*int) func() string {
+				return func() string {
+					sl := make([]string, len(values))
+					for i, o := range values {
+						sl[i] = c09Tag(o)
+					}
+					return strings.Join(sl, "+")
 				}
-				return strings.Join(sl, "+")
 			})
 		}
-		return c09Consume(ctx, s, func(r timeseries.TsRecord[string]) string {
-			return fmt.Sprintf("%d@%s", r.Timestamp.UnixNano(), r.Value)
+		return c09Consume(ctx, s, func(r timeseries.TsRecord[func() string]) string {
+			return fmt.Sprintf("%d@%s", r.Timestamp.UnixNano(), r.Value())
 		})
 	case strings.HasPrefix(variant, "dsi:") || strings.HasPrefix(variant, "dsl:") || strings.HasPrefix(variant, "dsf:"):
 		var widths []int
@@ -243,7 +286,7 @@ func execC09Inner(ctx context.Context, caseText string) string {
 				for j := 0; j < w; j++ {
 					backing[r*w+j] = int64(8*e.T + j)
 				}
-				recs[r] = timeseries.TsRecord[[]any]{Timestamp: c09Time(e.K), Value: backing[r*w : (r+1)*w]}
+				recs[r] = timeseries.TsRecord[[]any]{Timestamp: c09Time(e.K).In(c09Locs[i%3]), Value: backing[r*w : (r+1)*w]}
 			}
 			ds, err := report.NewStaticDatasource(metas, stream.Just(recs...))
 			if err != nil {
